@@ -90,8 +90,14 @@
 } while (0)
 
 /* Next instruction variations */
+#ifdef JANET_VERIF_SIM
+#define maybe_collect() do {\
+    if (janet_verif_hooks.gc_safepoint ? janet_verif_hooks.gc_safepoint() : \
+            (janet_vm.next_collection >= janet_vm.gc_interval)) janet_collect(); } while (0)
+#else
 #define maybe_collect() do {\
     if (janet_vm.next_collection >= janet_vm.gc_interval) janet_collect(); } while (0)
+#endif
 #define vm_checkgc_next() maybe_collect(); vm_next()
 #define vm_pcnext() pc++; vm_next()
 #define vm_checkgc_pcnext() maybe_collect(); vm_pcnext()
